@@ -70,6 +70,44 @@ pub fn roundtrip<const N: usize>(p: &[u8]) -> u32 {
     // push decoder: fixed buffer of exactly |p| bytes, and growable buffer
     expect_single::<ArrayBuf<N>>(frame, p, 110);
     expect_single::<Vec<u8>>(frame, p, 120);
+    // push decoder built around an existing, non-empty buffer (Decoder::from_buf must start from an empty one)
+    {
+        let mut d = Decoder::from_buf(vec![0xde, 0xad, 0xbe, 0xef, 0x00]);
+        let mut got = 0;
+        for (i, b) in frame.iter().enumerate() {
+            match d.push_byte(*b) {
+                Ok(None) => {}
+                Ok(Some(m)) => {
+                    got += 1;
+                    if i != frame.len() - 1 || m != p {
+                        fail(181);
+                    }
+                }
+                Err(_) => fail(182),
+            }
+        }
+        if got != 1 || d.finalize().is_some() {
+            fail(183);
+        }
+        let stale: ArrayBuf<N> = p.iter().map(|b| b ^ 0xff).collect();
+        let mut d = Decoder::from_buf(stale);
+        let mut got = 0;
+        for (i, b) in frame.iter().enumerate() {
+            match d.push_byte(*b) {
+                Ok(None) => {}
+                Ok(Some(m)) => {
+                    got += 1;
+                    if i != frame.len() - 1 || m != p {
+                        fail(184);
+                    }
+                }
+                Err(_) => fail(185),
+            }
+        }
+        if got != 1 {
+            fail(186);
+        }
+    }
     // decode()
     let d = decode(frame);
     if d.len() != 1 || d[0].as_ref().ok().map(|v| v.as_slice()) != Some(p) {
@@ -117,6 +155,19 @@ pub fn roundtrip<const N: usize>(p: &[u8]) -> u32 {
         }
         if r.next::<DecodedBytes>().is_some() {
             fail(162);
+        }
+        // an iterator that gives no size hint (lower bound 0) and yields owned bytes
+        let mut r = SmlReader::with_static_buffer::<N>().from_iterator(frame.iter().copied().filter(|_| true));
+        match r.next::<DecodedBytes>() {
+            Some(Ok(m)) => {
+                if m != p {
+                    fail(164);
+                }
+            }
+            _ => fail(163),
+        }
+        if r.next::<DecodedBytes>().is_some() {
+            fail(165);
         }
     }
     {
@@ -486,6 +537,7 @@ pub extern "C" fn chk_agree(ptr: *const u8, n: usize) -> u32 {
     cmp_reader(SmlReader::with_vec_buffer().from_iterator(s.iter()), &evs, &fin, 1540);
     cmp_reader(SmlReader::with_static_buffer::<64>().from_reader(s), &evs, &fin, 1550);
     cmp_reader(SmlReader::from_slice(s), &evs, &fin, 1560);
+    cmp_reader(SmlReader::with_static_buffer::<64>().from_iterator(s.iter().copied().filter(|_| true)), &evs, &fin, 1570);
     cover(15);
     evs.len() as u32
 }
